@@ -111,6 +111,8 @@ class Features:
     max_bytes: bool = False
     style_names: bool = True
     enum_first_zero_bias: bool = True
+    enum_first_zero: bool = False  # first member is always 0 (keeps recorded finding D4b out of a check)
+    prune_unused_imports: bool = False  # drop imports no type uses (recorded finding D10: unused Go import)
 
 
 class _Names:
@@ -291,7 +293,7 @@ class _Builder:
         pool = st.one_of(st.integers(0, min(top, 8)), st.sampled_from(sorted({0, 1, top, top // 2, (top + 1) // 2, min(top, 255), min(top, 256)})), st.integers(0, top))
         vals: List[int] = []
         for i in range(n):
-            if i == 0 and d(st.integers(0, 7)) > 0:
+            if i == 0 and (self.feat.enum_first_zero or d(st.integers(0, 7)) > 0):
                 v = 0
             else:
                 v = d(pool)
@@ -411,22 +413,24 @@ class _Builder:
 
 
 def _alias_mentions_foreign_enum(d: Any) -> bool:
+    """An alias whose array-element chain names an enum/alias that is nested in a
+    message or lives in another file than the alias: generated Go (and, before the
+    D4a repair, Python) casts bytes to that type under a name that does not resolve
+    in a THIRD module using the alias (recorded findings D7b / N3b)."""
     if not isinstance(d, Alias):
         return False
     home = d.parent_file  # type: ignore
     t = d.type
-    while True:
-        if isinstance(t, TArray):
-            t = t.elem
-        elif isinstance(t, TRef) and isinstance(t.target, Alias):
-            t = t.target.type
-        else:
-            break
-    if not (isinstance(t, TRef) and isinstance(t.target, Enum)):
+    while isinstance(t, TArray):
+        t = t.elem
+    if not isinstance(t, TRef):
         return False
-    # foreign enum (N3b) or enum nested in a message (D7b): both are emitted under a
-    # name that does not resolve in a *third* module using the alias
-    return t.target.parent_file is not home or getattr(t.target, "is_nested", False)  # type: ignore
+    tgt = t.target
+    if isinstance(tgt, Message):
+        return False
+    if tgt.parent_file is not home or getattr(tgt, "is_nested", False):  # type: ignore
+        return True
+    return _alias_mentions_foreign_enum(tgt)
 
 
 @st.composite
@@ -443,7 +447,54 @@ def units(draw: Any, feat: Optional[Features] = None) -> Unit:
         b.unit.files.append(f)
     set_parents(b.unit)
     _clamp_sizes(b.unit)
+    if feat.prune_unused_imports:
+        prune_unused_imports(b.unit)
     return b.unit
+
+
+def prune_unused_imports(unit: Unit) -> int:
+    """Removes imports whose file provides no type to the importing file."""
+    from .model import iter_messages
+
+    removed = 0
+    set_parents(unit)
+    for f in unit.files:
+        used = set()
+
+        def walk(t: Any) -> None:
+            if isinstance(t, TArray):
+                walk(t.elem)
+            elif isinstance(t, TRef):
+                used.add(id(file_of(t.target)))
+
+        for it in f.items:
+            if isinstance(it, Alias):
+                walk(it.type)
+        for m in iter_messages(f):
+            for fl in m.fields():
+                walk(fl.type)
+        dropped = set()
+        for imp in list(f.imports()):
+            if id(imp.file) not in used:
+                f.items.remove(imp)
+                dropped.add(id(imp.file))
+                removed += 1
+
+        def fix_caps(t: Any) -> None:
+            if isinstance(t, TArray):
+                if t.cap_const is not None and id(file_of(t.cap_const)) in dropped:
+                    t.cap_const = None
+                    t.cap_text = None  # back to the plain literal
+                fix_caps(t.elem)
+
+        if dropped:
+            for it in f.items:
+                if isinstance(it, Alias):
+                    fix_caps(it.type)
+            for m in iter_messages(f):
+                for fl in m.fields():
+                    fix_caps(fl.type)
+    return removed
 
 
 def _clamp_sizes(unit: Unit) -> None:
